@@ -17,6 +17,10 @@ CLAIMED.update({
  'C02': dict(text='For each of the four deck unit systems the real UnitSystem (constructed through its public constructor) is queried with a SYMBOLIC measure index: z3 proves that every row factor/offset equals an independent table of physical unit definitions (1e-12), that from_si(to_si(x)) = x to 1e-14 over exact rationals, that vector/scalar/Dimension views agree, that named dimensions equal their definitions and that composite strings multiply/divide (symbolic factors); DeckItem lazy raw<->SI conversion is decided for symbolic values, default flags and dimension factors.',
              note='doubles as exact rationals; std::map executed from headers with the rb-tree rebalance modelled as plain BST insert; keyword-JSON dimension strings and whole-deck re-expression outside', design='4/C02'),
 })
+CLAIMED.update({
+ 'C06': dict(text='The real WellConnections::loadCOMPDAT is run symbolically through its public signature (hand-built DeckRecord, real ScheduleGrid/CompletedCells cell) with symbolic cell geometry, permeabilities, NTG, skin, diameter, CF, Kh, r0 and symbolic given/defaulted flags; z3 proves on every path that explicit values are stored unchanged, defaulted Kh/r0 equal the independently written Peaceman expressions (direction permutation, NTG on the vertical extent) and CF (ln(r0/rw)+S) = 2 pi Kh.',
+             note='doubles as reals, libm uninterpreted with defining axioms; rw < r0 assumed; over-determined input (CF, Kh and r0 all entered) only checked for pass-through; relation to 1e-8 where r0 is back-computed (8-digit pi in inverse_peaceman); COMPDAT parsing, WPIMULT/WELOPEN handlers and multi-record histories outside', design='4/C06'),
+})
 NA = {
 }
 ALL = ['C%02d' % i for i in range(1, 21)]
